@@ -23,6 +23,9 @@ func init() {
 		Technique: "recover containment, all-elements loop rule with early return, dominance of removal events by the loop exit, who-may-call on the handler list, effect inventory over the call graph",
 		Trusted:   "go/types+go/ssa; go-datastore and LRU library contracts",
 		Run:       runC14,
+		Imports: []Import{
+			{From: "C08.d", As: "C14.e", Why: "a failed or partial deletion must leave the pointers at the progress actually made, so that the retry re-runs the handlers only for what is still stored"},
+		},
 	})
 }
 
